@@ -24,6 +24,7 @@ const (
 	chTG   = "c0000000-0000-4000-8000-0000000000f9"
 	chTW   = "c0000000-0000-4000-8000-0000000000f7"
 	chRecv = "c0000000-0000-4000-8000-0000000000f5"
+	chDangling = "c0000000-0000-4000-8000-0000000000dd" // in no channel set
 
 	flowParent = "f0000000-0000-4000-8000-000000000001"
 	flowChild  = "f0000000-0000-4000-8000-000000000002"
@@ -410,6 +411,9 @@ func genContact(r *hx.Rand, uuid string, id int, nchan []chanDef, telMode int) c
 			if ch.supports(scheme) || r.Chance(1, 5) {
 				aff = ch.UUID
 			}
+			if r.Fork("dangling").Chance(1, 6) {
+				aff = chDangling
+			}
 		}
 		stem := telMode
 		if telMode < 0 {
@@ -624,6 +628,11 @@ func corpusScenarios() []*scenario {
 	sc4 := base("set-channel-ext-blank-path", 6, "", fixed("ext", "ext: ", "ext:x"), fixed("facebook", "facebook:1122334455667788", "facebook:9988776655443322"))
 	sc4.SetChannel = true
 	out = append(out, sc4)
+	// a URN whose ?channel= names a channel that is not in the assets (affinity kept in the text, no channel resolved)
+	dg := base("dangling-channel-affinity", 0, "", fixed("tel", "tel:+12065551212?channel="+chDangling, "tel:+12065559876?channel="+chDangling), fixed("facebook", "facebook:1122334455667788", "facebook:9988776655443322"))
+	dg.Contact.Slots[0].Affinity = chDangling
+	dg.SetChannel, dg.SetChannelIdx = true, 2
+	out = append(out, dg)
 	// MEMBERSHIP PROBE: add_contact_urn with the number side A holds (one tel channel: no channel divergence)
 	pb := base("add-urn-probe-held-by-one-twin", 0, "", fixed("tel", "tel:+12065551212", "tel:+12065553434"))
 	pb.AddURN, pb.AddURNProbe = true, 1
